@@ -182,6 +182,18 @@ func (f *fnState) findLocal(name string) *ssa.Alloc {
 	if len(found) == 0 {
 		return nil
 	}
+	// at a source site the name means what Go's scoping says it means there
+	if f.sitePos.IsValid() && nth == 1 && !strings.Contains(name, "#") && len(found) > 1 {
+		if sc := f.fn.Pkg.Pkg.Scope().Innermost(f.sitePos); sc != nil {
+			if _, obj := sc.LookupParent(want, f.sitePos); obj != nil {
+				for _, a := range found {
+					if a.Pos() == obj.Pos() {
+						return a
+					}
+				}
+			}
+		}
+	}
 	// sort by position
 	for i := 0; i < len(found); i++ {
 		for j := i + 1; j < len(found); j++ {
